@@ -847,6 +847,8 @@ class NoisyMPSBackendImpl(MPSBackendImpl):
                         ts=self._timestep_index,
                         a=self.root_finder.a,
                         b=self.root_finder.b,
+                        fa=self.root_finder.fa,
+                        fb=self.root_finder.fb,
                     )
             else:
                 if _verif.enabled():
@@ -909,6 +911,8 @@ class NoisyMPSBackendImpl(MPSBackendImpl):
                     ts=self._timestep_index,
                     a=self.root_finder.a,
                     b=self.root_finder.b,
+                    fa=self.root_finder.fa,
+                    fb=self.root_finder.fb,
                 )
 
     def do_random_quantum_jump(self) -> None:
